@@ -362,6 +362,36 @@ def rule_stop(ctx):
            'AppClock tests the run flag under the tick condition before waiting', run.node, m)
 
 
+def rule_ready(ctx):
+    ctx.rule('C08.ready', 'a task is performed only when the physical present has reached its time, compared in the unit of the queue '
+                          '(seconds on SystemClock, beats on TempoClock); the sleep lasts head time - now in seconds')
+    m = ctx.repo.module('sc3.base.clock')
+    f = m.classes['SystemClock'].methods['_run']
+    src = full(f.node)
+    ok = U.before(src, 'now = _libsc3.main.elapsed_time()', 'sched_secs = cls._task_queue.peek()[0]', 'if now >= sched_secs: break', 'cls._sched_cond.wait(sched_secs - now)')
+    ctx.ob('C08.ready', f'{f.fq}:sleep', ok, 'sleep until the head time: compare now >= head, wait(head - now)', f.node, m)
+    ok = 'while not cls._task_queue.empty() and now >= cls._task_queue.peek()[0]:' in src
+    ctx.ob('C08.ready', f'{f.fq}:perform', ok, 'perform exactly the tasks whose time is <= now, head first', f.node, m)
+    f = m.classes['TempoClock'].methods['_run']
+    src = full(f.node)
+    ok = U.before(src, 'elapsed_beats = self.elapsed_beats()', 'qpeek = self._task_queue.peek()', 'if elapsed_beats >= qpeek[0]: break',
+                  'sched_secs = self.beats2secs(qpeek[0])', 'self._sched_cond.wait(sched_secs - _libsc3.main.elapsed_time())')
+    ctx.ob('C08.ready', f'{f.fq}:sleep', ok, 'compare in beats, sleep in seconds: wait(beats2secs(head) - elapsed seconds)', f.node, m)
+    ok = 'while not self._task_queue.empty() and elapsed_beats >= self._task_queue.peek()[0]:' in src
+    ctx.ob('C08.ready', f'{f.fq}:perform', ok, 'perform exactly the tasks whose beat is <= the elapsed beat, head first', f.node, m)
+    st = m.classes['Scheduler'].setters['seconds']
+    src = full(st.node)
+    v = st.params[1]
+    ok = src.count(f'while self._seconds <= {v}:') == 2
+    ctx.ob('C08.ready', f'{st.fq}:perform', ok, 'the AppClock scheduler performs the entries whose time is <= the target time', st.node, m)
+    # pop is the only way a task leaves the queue for execution and the item is executed once
+    for cname in ('SystemClock', 'TempoClock'):
+        g = m.classes[cname].methods['_run']
+        pops = [c for c in U.calls(g.node) if U.method_name(c) == 'pop' and is_queue_recv(c.func.value)]
+        aw = [c for c in U.calls(g.node) if U.method_name(c) == '__awake__']
+        ctx.ob('C08.ready', f'{g.fq}:once', len(pops) == 1 and len(aw) == 1, 'one pop, one __awake__ per performed task', g.node, m)
+
+
 def rule_resched(ctx):
     ctx.rule('C08.resched', 'a numeric return re-schedules relative to the scheduled time (AppClock: relative to the '
                             'physical present, documented drift)')
@@ -393,6 +423,7 @@ def run(ctx):
     rule_exc(ctx)
     rule_stop(ctx)
     rule_resched(ctx)
+    rule_ready(ctx)
     ctx.assume('Scheduler is used by AppClock only (its docstring says so): its methods are analysed as helpers of AppClock')
 
 
@@ -433,6 +464,10 @@ MUTANTS = [
     dict(rule='C08.resched', name='bool deltas re-schedule', file='sc3/base/clock.py',
          old="            if isinstance(delta, (int, float)) and not isinstance(delta, bool):\n                self._sched_add(delta, item)",
          new="            if isinstance(delta, (int, float)):\n                self._sched_add(delta, item)"),
+    dict(rule='C08.ready', name='TempoClock sleeps beats as seconds', file='sc3/base/clock.py',
+         old="                    sched_secs = self.beats2secs(qpeek[0])\n", new="                    sched_secs = qpeek[0]\n"),
+    dict(rule='C08.ready', name='SystemClock performs tasks scheduled after now', file='sc3/base/clock.py',
+         old="                and now >= cls._task_queue.peek()[0]:", new="                and now + 0.001 >= cls._task_queue.peek()[0]:"),
 ]
 
 REPAIRS = []
